@@ -27,6 +27,7 @@ import (
 	"github.com/mk6i/mkdb/sql"
 	"github.com/mk6i/mkdb/storage"
 
+	"verif/harness/internal/sparse"
 	"verif/harness/proto"
 )
 
@@ -244,6 +245,13 @@ func init() {
 			return fmt.Errorf("DRIVER: no relation service")
 		}
 		storage.VerifSetLastKey(sess.RelationService, uint32(op.N))
+		return nil
+	}
+	ops["setnextfree"] = func(op *proto.Op, res *proto.Res) error {
+		if sess.RelationService == nil {
+			return fmt.Errorf("DRIVER: no relation service")
+		}
+		storage.VerifSetNextFree(sess.RelationService, uint64(op.N))
 		return nil
 	}
 	ops["filesize"] = func(op *proto.Op, res *proto.Res) error {
@@ -671,22 +679,7 @@ func copyTree(src, dst string) error {
 	})
 }
 
-func copyFile(src, dst string) error {
-	in, err := os.Open(src)
-	if err != nil {
-		return err
-	}
-	defer in.Close()
-	o, err := os.Create(dst)
-	if err != nil {
-		return err
-	}
-	if _, err := io.Copy(o, in); err != nil {
-		o.Close()
-		return err
-	}
-	return o.Close()
-}
+func copyFile(src, dst string) error { return sparse.CopyFile(src, dst) }
 
 // logicalPage renders the logical content of a page dump.
 func logicalPage(p proto.Page) string {
